@@ -298,6 +298,11 @@ class Tr:
                     self.masked_reads = getattr(self, "masked_reads", []) + [m]
                     return base, tb
             raise TranslationError(f"subscript {src}")
+        if isinstance(node, ast.List) and node.elts:
+            parts = [self.expr(e, env) for e in node.elts]
+            if all(t == INT for _, t in parts):
+                return "[" + ", ".join(e for e, _ in parts) + "]", ("list", INT)       # [0, self, other]
+            raise TranslationError(f"list literal of non-integers: {src}")
         if isinstance(node, ast.Tuple):
             parts = [self.expr(e, env) for e in node.elts]
             return "(" + ", ".join(p[0] for p in parts) + ")", tup(*[p[1] for p in parts])
@@ -1258,6 +1263,15 @@ SPECS = [
          and [ast.unparse(x) for x in fn.body[-1].handlers[0].body] == ["return super().__eq__(other)"]
          and all(isinstance(x, ast.Expr) and isinstance(x.value, ast.Constant) for x in fn.body[:-1]),
          owners=["C12"]),
+    # ---- C17: which polygon `_bool_oper` returns when the outlines do not cross -----------------------------------------
+    dict(name="bool_oper_dispatch", file="pyresample/spherical.py", func="SphPolygon._bool_oper",
+         params=[("sign", INT), ("self", INT), ("other", INT), ("self_in_other", BOOL), ("other_in_self", BOOL)],
+         call_params={"self._is_inside(other)": "self_in_other", "other._is_inside(self)": "other_in_self"},
+         returns=opt(INT),
+         select=lambda fn: [st for st in fn.body if isinstance(st, ast.If) and ast.unparse(st.test) == "inter is None"][0].body,
+         guard=lambda fn: [ast.unparse(st.test) for st in fn.body if isinstance(st, ast.If)] == ["inter is None"]
+         and not [st for st in fn.body if isinstance(st, ast.If)][0].orelse,
+         owners=["C17"]),
     # ---- C05: when is the data mask used -------------------------------------------------------------
     dict(name="nn_mask_decision", file="pyresample/future/resamplers/nearest.py", func="KDTreeNearestXarrayResampler._get_area_mask",
          mode="fragment", params=[("mask_area", opt(BOOL)), ("is_swath", BOOL)],
